@@ -729,6 +729,11 @@ func (c *evalCtx) sel(x *SExpr) (*Val, error) {
 		}
 		ft := u.Field(i).Type()
 		if _, isPtr := base.GoT.Underlying().(*types.Pointer); isPtr {
+			if _, isSt := ft.Underlying().(*types.Struct); isSt && e.isOpaqueStruct(ft) {
+				// an embedded external struct (e.g. a sync.RWMutex held by value): denote it by its address,
+				// which is what method calls on it receive and what its ghost fields are keyed by
+				return &Val{T: "(" + e.fpFun(key, x.Name) + " " + base.T + ")", S: "Int", GoT: types.NewPointer(ft)}, nil
+			}
 			comp, cs, _ := e.fieldComp(nt, i)
 			v := &Val{T: sSel(e.get(c.cur, comp, "(Array Int "+cs+")"), base.T), S: cs, GoT: ft}
 			c.heapWF(ft, v.T)
@@ -768,7 +773,7 @@ func (c *evalCtx) index(x *SExpr) (*Val, error) {
 		switch t := a.GoT.Underlying().(type) {
 		case *types.Slice:
 			comp, es := e.elemComp(t.Elem())
-			base, idx := "(s-arr "+a.T+")", "(+ (s-off "+a.T+") "+i.T+")"
+			base, idx := "(s-arr "+a.T+")", "(ix (s-off "+a.T+") "+i.T+")"
 			c.heapWF(t.Elem(), sSel(sSel(e.get(c.cur, comp, arrSort(es)), base), idx))
 			return &Val{T: sSel(sSel(e.get(c.cur, comp, arrSort(es)), base), idx), S: es, GoT: t.Elem(),
 				Loc: &Loc{Kind: locElem, Comp: comp, CS: es, Base: base, Idx: idx, GoT: t.Elem()}}, nil
@@ -908,6 +913,41 @@ func (c *evalCtx) call(x *SExpr) (*Val, error) {
 		return &Val{T: sSel(args[0].T, args[1].T), S: es}, nil
 	case "store":
 		return &Val{T: sStore(args[0].T, args[1].T, args[2].T), S: args[0].S}, nil
+	case "result_of", "called":
+		// result_of("callee key"): the value returned by the call(s) of that callee inside the function
+		// under verification; called("callee key"): whether such a call was reached
+		key := x.Args[0].Name
+		crs := c.fr.root().callResults[key]
+		if len(crs) == 0 {
+			return nil, fmt.Errorf("unbound:no call of %s", key)
+		}
+		if name == "called" {
+			var pcs []string
+			for _, cr := range crs {
+				pcs = append(pcs, cr.pc)
+			}
+			return bo(sOr(pcs...))
+		}
+		v := crs[len(crs)-1].val
+		if v.Tup != nil {
+			idx := 0
+			if len(args) > 1 {
+				fmt.Sscanf(args[1].T, "%d", &idx)
+			}
+			if idx >= len(v.Tup) {
+				return nil, fmt.Errorf("result_of: no result %d", idx)
+			}
+			t := v.Tup[idx].T
+			for k := len(crs) - 2; k >= 0; k-- {
+				t = sIte(crs[k].pc, crs[k].val.Tup[idx].T, t)
+			}
+			return &Val{T: t, S: v.Tup[idx].S, GoT: v.Tup[idx].GoT}, nil
+		}
+		t := v.T
+		for k := len(crs) - 2; k >= 0; k-- {
+			t = sIte(crs[k].pc, crs[k].val.T, t)
+		}
+		return &Val{T: t, S: v.S, GoT: v.GoT}, nil
 	case "seen":
 		// seen(k): key k has been visited by the map range loop whose invariant this is
 		var comp string
